@@ -68,7 +68,9 @@ def main():
         res["confirmed"] = confirmed
         print(json.dumps({k: res[k] for k in ("name", "suite_passes_with_patch", "demo_fails_with_patch", "demo_passes_without_patch", "caught_by")}))
         if confirmed:
-            rnd = "r2-" if "/wt2/" in wt else ("r3-" if "/wt3/" in wt else ("r4-" if "/wt4/" in wt else ("r5-" if "/wt5/" in wt else "")))
+            import re
+            m = re.search(r"/wt(\d+)/", wt)
+            rnd = f"r{m.group(1)}-" if m else ""
             dst = f"{SEEDED_OUT}/{prop}-{rnd}{name}"
             os.makedirs(dst, exist_ok=True)
             shutil.copy(patch, os.path.join(dst, "patch.diff"))
